@@ -96,11 +96,38 @@ def judge(res, code, feats, canary_offsets, resp):
         res.count("dead_canaries", len(dead_slots - live_slots))
 
 
+def judge_loopy(res, code, feats, resp):
+    """Programs with loops: only the 'subset' half of the property is decidable here - nothing outside the static
+    control-flow graph may be executed."""
+    res.evaluations += 1
+    if resp.get("class") not in ("ok", "err") or "visits" not in resp:
+        res.inconc("driver:%s" % resp.get("class"))
+        return
+    res.judged += 1
+    res.count("loopy_programs")
+    R = evmref.static_reachable(code)
+    visited = set(resp["visits"]["visited_union"])
+    extra = sorted(visited - R)
+    if resp["mon"]["forks"] or resp["mon"]["max_visits"] > 1:
+        res.nontriv(common.sha(code.hex()))
+    if extra:
+        res.violation("c08:dead-code-executed:loopy", "offsets %s executed but unreachable in the static control-flow graph" % extra[:16],
+                      {"code": code.hex(), "loopy": True})
+
+
 def shard(shard_no, nshards, seed, tier, extra):
     res = common.Result()
     rng = common.rng_for(seed, "c08", shard_no)
     n = 700 if tier == "quick" else 60000
     d = common.Driver("rel", shim=False)
+    for i in range(n // 3):
+        code, feats = progs.loopy(rng)
+        # dead code behind the program's own terminators
+        code = code + rng.choice([b"", bytes.fromhex("60aa61030055"), bytes.fromhex("5b60bb61030155")])
+        cfg = {"permissive": True, "iters": rng.randint(1, 6), "forks": rng.choice([1, 2, 5, 20])}
+        resp = d.call({"op": "analyze", "code": code.hex(), "direct_vm": True, "cfg": cfg,
+                       "wd": {"every": 100, "stop_at": 30000}}, timeout=120)
+        judge_loopy(res, code, feats, resp)
     for i in range(n):
         code, feats, canary_offsets = progs.controlflow(rng)
         req = {"op": "analyze", "code": code.hex(), "direct_vm": True, "observe": ["states"], "state_cap": 128,
@@ -128,7 +155,8 @@ def run(tier, seed, t0):
         "2^256-1, 0, computed constants; blocks end in STOP/RETURN/REVERT/INVALID/SELFDESTRUCT/unassigned bytes or fall "
         "through; every block stores to its own canary slot. Checked: executed offsets subset of the reference "
         "reachable set, equal to it, same path set, dead canary slots absent from the layout. distinct = bytecode; "
-        "non-trivial = at least 3 control-flow features",
+        "non-trivial = at least 3 control-flow features. Plus programs with loops (self-loops, nested loops, fork "
+        "bombs, jump tables) with dead code appended: executed offsets must lie inside the static control-flow graph",
         t0, ["vlib/evmref.py path enumeration is the EVM control-flow graph", "permissive mode so that bad targets "
              "do not hide the states"], min_judged=200)
 
@@ -145,7 +173,10 @@ def replay(path):
         resp["layout"] = full["layout"]
         resp["full_ok"] = True
     d.stop()
-    judge(res, code, {"replay", "x", "y"}, {}, resp)
+    if case.get("loopy"):
+        judge_loopy(res, code, set(), resp)
+    else:
+        judge(res, code, {"replay", "x", "y"}, {}, resp)
     for v in res.violations:
         print("VIOLATION-REPLAY", v["signature"], v["what"])
     return 1 if res.violations else 0
